@@ -1,6 +1,7 @@
 package props
 
 import (
+	"math/rand"
 	"encoding/hex"
 	"encoding/json"
 	"flag"
@@ -83,6 +84,7 @@ func RunSrv(args []string) error {
 	in := fs.String("scripts", "", "ndjson file, one script per line")
 	out := fs.String("out", "log.ndjson", "event log")
 	par := fs.Int("par", 16, "parallel scenarios")
+	decorate := fs.Int64("decorate", 0, "if non-zero: replace names/messages of the scripts by seeded random data of interesting sizes")
 	_ = fs.Parse(args)
 	f, err := os.ReadFile(*in)
 	if err != nil {
@@ -110,6 +112,9 @@ func RunSrv(args []string) error {
 		go func(i int) {
 			defer wg.Done()
 			defer func() { <-sem }()
+			if *decorate != 0 {
+				decorateScript(&scripts[i], *decorate*1000003+int64(i))
+			}
 			results[i], errs[i] = runSrvScript(i+1, scripts[i])
 		}(i)
 	}
@@ -150,6 +155,8 @@ type srvRun struct {
 	soon     map[string]time.Time // ip -> planted expiry of a "soon" ban
 	port     int
 	extra    []map[string]any // environment events to log before the current step
+	abort    bool             // stop the script after this step
+	unsettled []int
 }
 
 func (r *srvRun) chatOf(b []byte) int {
@@ -315,11 +322,14 @@ func (r *srvRun) quiesce() error {
 		c := r.cl[s]
 		id := c.Send(sim.TKeepAlive)
 		r.settle[s][id] = true
-		if _, err := c.WaitFor(func(t sim.Tx) bool { return t.IsReply == 1 && t.ID == id }, 10*time.Second); err != nil {
+		if _, err := c.WaitFor(func(t sim.Tx) bool { return t.IsReply == 1 && t.ID == id }, 5*time.Second); err != nil {
 			if err == sim.ErrClosed {
 				continue // closed meanwhile (e.g. kicked): observed through `closed`
 			}
-			return fmt.Errorf("settle slot %d: %w", s, err)
+			// a connection whose keep-alive is not answered (e.g. its registry entry was taken over by another
+			// connection with the same user ID): observed, the run ends after this step
+			r.unsettled = append(r.unsettled, s)
+			r.abort = true
 		}
 	}
 	return nil
@@ -397,12 +407,24 @@ func runSrvScript(run int, sc srvScript) (evs []map[string]any, err error) {
 			x["deliv"] = []map[string]any{}
 			evs = append(evs, x)
 		}
+		if r.abort {
+			ev["closed"] = []int{}
+			ev["deliv"] = []map[string]any{}
+			evs = append(evs, ev)
+			break
+		}
 		if err := r.quiesce(); err != nil {
 			return nil, err
 		}
 		ev["closed"] = r.newlyClosed()
 		ev["deliv"] = r.collect()
+		if len(r.unsettled) > 0 {
+			ev["unsettled"] = r.unsettled
+		}
 		evs = append(evs, ev)
+		if r.abort {
+			break
+		}
 	}
 	return evs, nil
 }
@@ -451,6 +473,7 @@ func (r *srvRun) step(st map[string]any, ev map[string]any) error {
 		} else {
 			fields = append(fields, sim.Fld(sim.FVersion, sim.U16(190)))
 		}
+		ev["matches"] = r.matches(st["login"].(string), bytesOf(st["pw"]))
 		id := r.send(slot, "login", sim.TLogin, fields...)
 		_, err := c.WaitFor(func(t sim.Tx) bool { return t.IsReply == 1 && t.ID == id }, 10*time.Second)
 		if err != nil && err != sim.ErrClosed {
@@ -565,6 +588,32 @@ func (r *srvRun) step(st map[string]any, ev map[string]any) error {
 			}
 			delete(r.soon, ip)
 		}
+	case "churn":
+		// n connections come and go through the real registry (each consumes a user ID)
+		n := intOf(st["n"])
+		live := map[int]bool{}
+		for _, s := range r.liveSlots() {
+			live[r.ids[s]] = true
+		}
+		dup := []int{}
+		for i := 0; i < n; i++ {
+			cc := r.w.Srv.NewClientConn(nopConn{}, "10.250.0.1:1")
+			id := int(cc.ID[0])<<8 | int(cc.ID[1])
+			if live[id] {
+				// the registry handed out the ID of a connected user (and replaced its entry): observed, and the
+				// run ends here because the server's registry no longer matches its connections
+				dup = append(dup, id)
+				break
+			}
+			r.w.Srv.ClientMgr.Delete(cc.ID)
+		}
+		ev["dup"] = dup
+		if len(dup) > 0 {
+			r.abort = true
+		}
+	case "idle":
+	case "rawfail":
+		return r.rawFail(st, ev)
 	case "restart":
 		nb, err := r.w.Reload()
 		if err != nil {
@@ -600,3 +649,135 @@ func (r *srvRun) banClass(ip string) string {
 		return "past"
 	}
 }
+
+
+type nopConn struct{}
+
+func (nopConn) Read(p []byte) (int, error)  { select {} }
+func (nopConn) Write(p []byte) (int, error) { return len(p), nil }
+func (nopConn) Close() error                { return nil }
+
+// matches decides independently of the server whether (login, password) are valid credentials: the account file
+// of the login (guest for the empty login) must exist and its stored bcrypt hash must verify the obfuscated
+// password bytes as sent on the wire.
+func (r *srvRun) matches(login string, pw []byte) bool {
+	if login == "" {
+		login = "guest"
+	}
+	return sim.FileCredentialsOK(r.w.Config+"/Users", login, pw)
+}
+
+func (r *srvRun) rawFail(st map[string]any, ev map[string]any) error {
+	slot := intOf(st["c"])
+	ip, _ := st["addr"].(string)
+	r.port++
+	before, _ := sim.Snapshot(r.w.Dir)
+	c := r.w.Dial(fmt.Sprintf("%s:%d", ip, r.port))
+	r.cl[slot] = c
+	r.ips[slot] = ip
+	r.pending[slot] = map[uint32]string{}
+	r.settle[slot] = map[uint32]bool{}
+	hs := append([]byte(nil), sim.HandshakeBytes...)
+	switch st["hs"] {
+	case "badproto":
+		copy(hs, "XRTP")
+	case "badsub":
+		copy(hs[4:], "XOTL")
+	case "short":
+		hs = hs[:7]
+	}
+	login, _ := st["login"].(string)
+	pw := bytesOf(st["pw"])
+	m := r.matches(login, pw)
+	ev["matches"] = m
+	if m && st["hs"] == "ok" {
+		// valid credentials: this is not a failing login; make it fail on the password instead
+		pw = append(pw, 0x7f)
+		ev["pw"] = sim.Ints(pw)
+		ev["matches"] = r.matches(login, pw)
+	}
+	var buf []byte
+	buf = append(buf, hs...)
+	sentFirst := st["hs"] != "short"
+	if sentFirst {
+		first := sim.NewTx(sim.TLogin, 7, sim.Fld(sim.FUserLogin, sim.Obfuscate([]byte(login))), sim.Fld(sim.FUserPassword, sim.Obfuscate(pw)),
+			sim.Fld(sim.FUserName, []byte("intruder")), sim.Fld(sim.FUserIconID, []byte{0, 9}))
+		buf = append(buf, first.Encode()...)
+		// transactions appended by the unauthenticated peer: none of them may be executed or answered
+		tr := []sim.Tx{
+			sim.NewTx(sim.TChatSend, 8, sim.Fld(sim.FData, []byte("pre-login chat"))),
+			sim.NewTx(sim.TNewUser, 9, sim.Fld(sim.FUserLogin, sim.Obfuscate([]byte("evil"))), sim.Fld(sim.FUserName, []byte("evil")), sim.Fld(sim.FUserPassword, sim.Obfuscate([]byte("x"))), sim.Fld(sim.FUserAccess, make([]byte, 8))),
+			sim.NewTx(sim.TNewFolder, 10, sim.Fld(sim.FFileName, []byte("evil-folder"))),
+			sim.NewTx(sim.TOldPostNews, 11, sim.Fld(sim.FData, []byte("evil post"))),
+			sim.NewTx(sim.TUserBroadcast, 12, sim.Fld(sim.FData, []byte("evil broadcast"))),
+			sim.NewTx(sim.TGetUserNameList, 13),
+		}
+		for i := 0; i < intOf(st["trailing"]) && i < len(tr); i++ {
+			buf = append(buf, tr[i].Encode()...)
+		}
+	}
+	ev["sentFirst"] = sentFirst
+	c.SendRaw(buf)
+	if st["hs"] == "short" {
+		c.CloseWrite()
+	}
+	if !c.WaitServerDone(10 * time.Second) {
+		// the server keeps the connection: observed as "not closed" below
+		_ = c
+	}
+	after, _ := sim.Snapshot(r.w.Dir)
+	ev["stateChanged"] = len(sim.SnapDiff(before, after)) > 0
+	return nil
+}
+
+// decorateScript replaces the data values of a TLC-generated script by seeded random data of interesting sizes
+// (the structure of the script - who does what to whom - is kept, so it stays a behaviour of the specification).
+func decorateScript(sc *srvScript, seed int64) {
+	rng := newRng(seed)
+	name := func() []int {
+		n := []int{0, 1, 5, 12, 13, 14, 20, 31}[rng.Intn(8)]
+		b := make([]int, n)
+		for i := range b {
+			b[i] = 33 + rng.Intn(94) // printable ASCII without space
+		}
+		return b
+	}
+	blob := func() []int {
+		n := []int{0, 1, 2, 50, 300, 8170, 8173, 8174, 8175, 8176, 8180, 8192, 8200, 20000}[rng.Intn(14)]
+		b := make([]int, n)
+		for i := range b {
+			b[i] = rng.Intn(256)
+		}
+		return b
+	}
+	short := func() []int {
+		n := rng.Intn(40)
+		b := make([]int, n)
+		for i := range b {
+			b[i] = rng.Intn(256)
+		}
+		return b
+	}
+	for _, st := range sc.Steps {
+		switch st["op"] {
+		case "login", "agreed", "setinfo":
+			if _, ok := st["name"]; ok {
+				st["name"] = name()
+			}
+			if _, ok := st["auto"]; ok {
+				st["auto"] = short()
+			}
+			if st["op"] != "login" || st["flow"] == "old" {
+				st["icon"] = rng.Intn(65536)
+			}
+		case "chat", "broadcast":
+			st["msg"] = blob()
+		case "pm":
+			st["msg"] = short()
+		case "subject":
+			st["subject"] = short()
+		}
+	}
+}
+
+func newRng(seed int64) *rand.Rand { return rand.New(rand.NewSource(seed)) }
